@@ -135,7 +135,7 @@ var atomsFull = []string{"a", "b", "!a", "!b", "a==null", "a!=null", "a===null||
 	"a.p", "h1(1)", "h1(a)", "a&&b", "a||b", "a??b", "NaN", "0.0", "1e-400", "0x0", "0n", "[]", "a==b", "a===b", "a<b", "!(a<b)", "typeof a", "-a", "(a=b)", "(a,b)", "Infinity", "-0", "a?.p", "a==0", "!!a", "!(a&&b)", "!(a||b)", "!a&&!b", "!a||!b",
 	// calls of one function with different argument shapes: merging c?f(x):f(y) into f(c?x:y) is right for one plain argument only
 	"h1(...[a,b])", "h1(b)", "h1(a,b)", "h1()", "h1(...b)", "a.m(b)", "a.m(...[b])"}
-var atomsQuick = []string{"a", "b", "!a", "a==null", "null", "void 0", "!1", `""`, "a.p", "h1(a)", "a&&b", "1e-400", "h1(...[a,b])", "h1(b)"}
+var atomsQuick = []string{"a", "b", "!a", "a==null", "null", "void 0", "!1", `""`, "a.p", "h1(a)", "a&&b", "1e-400", "h1(...[a,b])", "h1(b)", "h1()"}
 
 func genConditionals(c *core.Check, emit func(Program) bool) {
 	atoms := atomsQuick
